@@ -1,8 +1,9 @@
 (* C10 -- interval slicing partitions the data.  Property theorems only; proofs are in
    proofs/IntervalsProofs.v, the model in model/Intervals.v. *)
-From Coq Require Import List Bool Arith Permutation PrimFloat.
+From Coq Require Import List Bool Arith Permutation PrimFloat Reals ZArith.
 From V.model Require Import Intervals.
-From V.proofs Require Import IntervalsProofs FloatOrder.
+From V.proofs Require Import IntervalsProofs FloatOrder FloatMono ArangeOrder.
+From V.base Require Import FloatBits.
 Import ListNotations.
 
 Section Abstract.
@@ -115,6 +116,44 @@ Theorem C10_width_slice_nodrop : forall width r ro vmin vmax data,
                 (width_refs r (fst (width_edges dmin dmax width)) width) data).
 Proof. exact width_slice_nodrop. Qed.
 
+(* ---- the edge vector itself: numpy.arange(start, stop, step) reproduced in binary64 (base/FloatBits.arange: element i is
+   start, start+step, start + i*((start+step)-start)) is non-decreasing for EVERY finite start, finite step >= 0 and every stop
+   (fewer than 2^62 elements); proved through Flocq: each operation is the clamped correct rounding of the exact result, rounding is
+   monotone, and fl(s1 - start) >= (s1 - start)/2 for the one step that is not plain monotonicity *)
+Theorem C10_arange_sorted : forall start stop step : PrimFloat.float,
+  pfin start -> pfin step -> (0 <= pR step)%R ->
+  (forall len, ceilZ ((stop - start) / step)%float = Some len -> (len < 2 ^ 62)%Z) ->
+  sorted PrimFloat.float fleb (arange start stop step).
+Proof. exact arange_sorted. Qed.
+
+(* WidthOfIntervalSlicer: starts ++ [last start + width] is non-decreasing for every configuration *)
+Theorem C10_width_edges_sorted : forall dmin dmax width : PrimFloat.float,
+  PrimFloat.is_finite dmin = true -> PrimFloat.is_finite width = true -> PrimFloat.leb 0 width = true ->
+  (forall len, ceilZ (((dmax + width) - dmin) / width)%float = Some len -> (len < 2 ^ 62)%Z) ->
+  sorted PrimFloat.float fleb (snd (width_edges dmin dmax width)).
+Proof. exact width_edges_sorted_prim. Qed.
+
+(* hence, with NO sortedness hypothesis left: for every binary64 data vector and every Width-slicer configuration (finite lower
+   end, finite width >= 0, any upper end) each datum of the covered range is in exactly one interval of the executable model that
+   is run against the implementation *)
+Theorem C10_width_partition_every_input : forall dmin dmax width r (data : list PrimFloat.float) a e j d0,
+  PrimFloat.is_finite dmin = true -> PrimFloat.is_finite width = true -> PrimFloat.leb 0 width = true ->
+  (forall len, ceilZ (((dmax + width) - dmin) / width)%float = Some len -> (len < 2 ^ 62)%Z) ->
+  snd (width_edges dmin dmax width) = a :: e ->
+  j < length data ->
+  fleb a (nth j data d0) = true -> ltb PrimFloat.float fleb (nth j data d0) (last (a :: e) a) = true ->
+  rows_true_at PrimFloat.float j
+    (rows_of PrimFloat.float fleb RightOpen false (snd (width_edges dmin dmax width))
+             (width_refs r (fst (width_edges dmin dmax width)) width) data) = 1.
+Proof. exact width_partition_every_input. Qed.
+
+(* non-vacuity of the binary64 statements: width 0.1 from 0 to 0.35 *)
+Example C10_width_nonvacuous :
+  PrimFloat.is_finite 0.1%float = true /\ PrimFloat.leb 0 0.1%float = true /\
+  ceilZ (((0.35 + 0.1) - 0) / 0.1)%float = Some 5%Z /\
+  length (snd (width_edges 0 0.35 0.1)) = 6.
+Proof. vm_compute. repeat split. Qed.
+
 (* non-vacuity: a concrete edge vector and datum meeting every hypothesis (nat order) *)
 Example C10_nonvacuous :
   sorted nat Nat.leb [0; 2; 4; 6] /\
@@ -141,3 +180,6 @@ Print Assumptions C10_binary64_order_total.
 Print Assumptions C10_binary64_partition_right_open.
 Print Assumptions C10_binary64_partition_include_max.
 Print Assumptions C10_width_slice_nodrop.
+Print Assumptions C10_arange_sorted.
+Print Assumptions C10_width_edges_sorted.
+Print Assumptions C10_width_partition_every_input.
